@@ -393,7 +393,9 @@ class Interp:
             env = dict(env)
             for t in st.targets:
                 tt = self.eval(self._load(t), env, frame, cond)
-                self.effect('delete', frame, st, cond, target=tt,
+                bt = self.eval(self._load(t.value), env, frame, cond) \
+                    if isinstance(t, (ast.Attribute, ast.Subscript)) else None
+                self.effect('delete', frame, st, cond, target=tt, base=bt,
                             target_src=ast.unparse(t))
                 if isinstance(t, ast.Name):
                     env.pop(t.id, None)
